@@ -160,6 +160,15 @@ package types
 //@ func (p ITrxPayload) Decode(bz)
 //@   modifies allof(TrxPayloadUnstaking), allof(TrxPayloadWithdraw), allof(TrxPayloadProposal), allof(TrxPayloadVoting), allof(TrxPayloadContract), allof(TrxPayloadSetDoc)
 //@   allocates uint256.Int
+//@   ensures result == nil && istype(p, ptr(TrxPayloadWithdraw)) ==> as(p, ptr(TrxPayloadWithdraw)).ReqAmt != nil   [C09]
+
+//@ func (tx *TrxPayloadWithdraw) Decode(bz)
+//@   nopanic
+//@   implements (ITrxPayload).Decode
+//@   objinv tx != nil
+//@   modifies tx.ReqAmt
+//@   allocates uint256.Int
+//@   ensures result == nil ==> tx.ReqAmt != nil                                                                [C09]
 
 //@ func (tx *Trx) fromProto(txProto)
 //@   nopanic
